@@ -198,8 +198,16 @@ def evaluate(ck, recs):
                 for o in st["staged"]:
                     if o[0] == "set":
                         staged.append("OSet 0%%nat %s %s" % (cbytes(o[1][2:]), cbytes(o[2])))
-                    else:
+                    elif o[0] == "del":
                         staged.append("ODel 0%%nat %s" % cbytes(o[1][2:]))
+                    elif o[0] == "get":
+                        staged.append("OGet 0%%nat %s" % cbytes(o[1][2:]))
+                    elif o[0] == "snap":
+                        staged.append("OSnapshot 0%nat")
+                    elif o[0] == "restore":
+                        staged.append("ORestore 0%%nat %d" % int(o[1]))
+                    else:
+                        raise ValueError(o[0])
                 ev = "None" if b["events"] is None else "(Some %s)" % it.v(b["events"])
                 apply_terms.append("(%s, %s, %s, %d, %s, %s, [%s], %s, %s, %s, %s)" % (
                     dump_term(it, st["pre"]), blk_term(it, b), ev, st["fh"], cbool(st["remove_temp"]), zlit(keep),
